@@ -119,6 +119,7 @@ private:
     bool app_action_enabled() const;
     int64_t last_now_seen = -1; int last_time_change_step = 0;
     std::set<int> open_before_epilogue;   // streams still open (not closed, not shut down) when the epilogue's cancel() was about to run
+    std::set<int> hung_streams;   // streams on which a write stalled at some point (wr-hang): nothing more can be sent on them
     std::vector<std::pair<int64_t, int>> env_deadlines;   // (virtual time, stream): a hung write gives up with timed_out (the transport's own timeout)
     int64_t t_epilogue = -1; int free_ids_at_quiet = -1;   // identifiers free in the allocator when the run went quiescent (all exchanges completed), -1 = not taken
     bool in_epilogue = false; bool show_choices = getenv("SIMNET_SHOW_CHOICES") != nullptr;
